@@ -3,7 +3,7 @@ import ast
 
 from ..model import AnalysisError, dotted, unparse
 from ..structfmt import parse_format, local_defs, resolve_local, reaching_def
-from ..util import equiv_facts, POS, FACTS, FACTS_I, U, enum_paths, walk_no_nested, norm_fact
+from ..util import RAW, equiv_facts, POS, FACTS, FACTS_I, U, enum_paths, walk_no_nested, norm_fact
 from ..paths import call_attr, call_name
 from .. import wire
 
@@ -346,6 +346,29 @@ def r4(ctx):
   ctx.ob('C14.R4', f, 'void completion only after the declared-exception scan', okscan and n_void >= 1,
          'a path returns an empty MethodReturnMessage for a present result struct without scanning thrift_spec[1:] (%d void paths)' % n_void,
          'a void method that declares exceptions must raise a thrown declared exception, not complete with None')
+  # the declared-exception fields are read from the decoded result INSTANCE (the object .read(protocol) filled), not from its class
+  inst = [U(c.func.value) for c in walk_no_nested(f.node) if isinstance(c, ast.Call) and call_attr(c) == 'read' and isinstance(c.func.value, ast.Name)
+          and any(isinstance(st, ast.Assign) and U(st.targets[0]) == U(c.func.value) and isinstance(st.value, ast.Call) and 'cls' in U(st.value.func) for st in walk_no_nested(f.node))]
+  scan_reads = [c for lp in ast.walk(f.node) if isinstance(lp, (ast.For, ast.GeneratorExp, ast.ListComp)) for c in ast.walk(lp)
+                if isinstance(c, ast.Call) and isinstance(c.func, ast.Name) and c.func.id == 'getattr' and len(c.args) >= 2 and isinstance(c.args[1], ast.Subscript)]
+  if inst and scan_reads:
+    bad = [U(c) for c in scan_reads if U(c.args[0]) != inst[0]]
+    ctx.ob('C14.R4', f, 'declared-exception fields are read from the decoded result object', not bad,
+           'the scan reads %s: only the instance that read(protocol) filled carries the thrown exception (generated classes set their fields per instance)' % bad, why)
+  # thrift_spec of a void method without throws is the EMPTY tuple: an element of the spec may be read only where the spec is known to be non-empty
+  for ev_i, (r, conds, calls, ev) in enumerate(rets):
+    for i, e in enumerate(ev):
+      if e.kind not in ('cond', 'stmt', 'ret', 'call'):
+        continue
+      subs = [x for x in ast.walk(e.node) if isinstance(x, ast.Subscript) and U(x.value) == 'result_spec' and not isinstance(x.slice, ast.Slice)]
+      if not subs:
+        continue
+      fs = set((c_, bool(t_)) for c_, t_ in RAW(ev[:i]))      # literal tests: `is not None` does not make a tuple non-empty
+      nonempty = ('result_spec', True) in fs or ('notresult_spec', False) in fs or ('len(result_spec)>0', True) in fs or ('len(result_spec)==0', False) in fs
+      ctx.ob('C14.R4', f, 'an element of thrift_spec is read only when the spec is non-empty', nonempty,
+             '%s is evaluated on a path that has not established a non-empty thrift_spec (facts %s): a void method without throws has thrift_spec = () and the read raises IndexError'
+             % (U(subs[0]), sorted(c for c, t_ in fs if 'result_spec' in c)),
+             'a void reply must complete the call with None')
   # thrift_spec is indexed by field id and holds None for ids the IDL does not use (throws (1: A a, 3: B b)):
   # an entry may be subscripted only once it is known not to be None
   n_scan = 0
